@@ -193,6 +193,8 @@ func c05CheckRound(r *core.Result, round int, o *roundObs) {
 				r.ViolateD("notify-stat", ctx(), "round %d: %s %q carries stat %v, the sender announced %v", round, n.Kind, n.Path, n.Stat, st)
 			}
 			ne := tree.FromStat(st)
+			// what is stored is what was sent, whatever size was announced
+			ne.Size -= o.SizeOff[n.Path]
 			if j, ok := filtered[n.Path]; ok {
 				// what is stored is the stat as rewritten by the receiver's filter
 				fe := o.SrcF.Entries[j]
